@@ -66,6 +66,7 @@ structure HMon where
   prevKeys : List Nat := []
   hist : Hist := {}
   origin : String := ""       -- "C10": a clone or an original that was cloned; "C08": a reloaded graph
+  steps : Nat := 0
 
 structure Reject where
   prop : String
@@ -543,8 +544,10 @@ def judgeCore (m : HMon) (op : Op) (o : Obs) : HMon × List (String × String) :
         | _ => rej
       -- payload against the reference (determinism of ids, data, kids order: C19's content; reported with C02's correspondence)
       let rej := if o.payload ≠ ePayload ∧ rej = [] then rej ++ [("REF", s!"answer {o.payload}, reference {ePayload}")] else rej
+      -- every 24 calls the closure chains of the reference tables are flattened
+      let r' := if m.steps % 24 = 23 then compactR m.cap r' else r'
       let m' := { m with r := r', prevKeys := o.keys, hist := hs.update op m.prevKeys o.keys o.payload,
-                         judged := rej = [] }
+                         judged := rej = [], steps := m.steps + 1 }
       (m', rej)
 
 def noteStats (st : Stats) (m : HMon) (op : Op) (o : Obs) (ever : Bool) : Stats :=
